@@ -440,6 +440,10 @@ func genService(t *rapid.T, wild int) *serviceS {
 		BaseDenom:   pickDenom(t, "sv.bd", wild, false),
 		Restricted:  rapid.Bool().Draw(t, "sv.r"),
 	}
+	if rapid.IntRange(0, 2).Draw(t, "sv.bdfunded") == 0 {
+		// a base denom that accounts actually hold, so that deposits, prices and caps in the new coin can be paid
+		s.BaseDenom = rapid.SampledFrom([]string{"btc", "btc", "eth"}).Draw(t, "sv.bdcoin")
+	}
 	if rapid.IntRange(0, 99).Draw(t, "sv.durw") >= wild { // keep the durations acceptable most of the time
 		if s.Complaint <= 0 {
 			s.Complaint = int64(time.Hour)
